@@ -67,7 +67,8 @@ def build_jobs(t, sd):
                 for opt in opts:
                     jobs.append({"id": "router%d@v%d%s%s" % (ci, v, "/asm" if asm else "", "" if opt is None else "/nofp"),
                                  "family": "router:%dm:%db" % (len(cfg["methods"]), len(cfg["bare"])), "cfg": to_json(cfg), "version": v,
-                                 "assemble": asm, "optimize": opt})
+                                 "assemble": asm, "optimize": opt,
+                                 "expect_ok": any(m.get("via") for m in cfg["methods"])})
     for j in jobs[:: max(1, len(jobs) // 5)]:
         j["want_sample"] = True
         j["keep_teal"] = True
